@@ -431,3 +431,37 @@ Section TableTie.
     wf_trace tr -> forallb access_ok tbl = true -> race_free tr.
   Proof. intros Hwf Hall. eapply lockset_race_free; eauto using table_discipline. Qed.
 End TableTie.
+
+(* Non-vacuity of table_discipline: its hypotheses are jointly satisfiable.
+   One write to `data` through the receiver s of Session.Set, inside s.Lock(). *)
+Definition tie_trace : trace := [ Acq 1 0 Ex; Acc 1 0 0 Wr; Rel 1 0 Ex ].
+Definition tie_row : row :=
+  mkRow "Session.Set"%string "session.go"%string 620 "s"%string "Session"%string "data"%string Wr
+        [("s"%string, Ex, 619002%N)] false false false 0 true false false.
+
+Example table_discipline_applies :
+  disciplined (fun _ _ => GLock 0) tie_trace.
+Proof.
+  assert (Hacc : forall p t o f k, ev tie_trace p = Some (Acc t o f k) ->
+                                   p = 1 /\ t = 1 /\ o = 0 /\ f = 0 /\ k = Wr).
+  { intros p t o f k E. cases_pos p 3; cbn in E; try discriminate.
+    - inversion E; auto.
+    - destruct p; discriminate. }
+  assert (Hnopub : forall q c o, ev tie_trace q <> Some (Pub c o)).
+  { intros q c o E. cases_pos q 3; cbn in E; try discriminate. destruct q; discriminate. }
+  apply (table_discipline tie_trace (fun _ _ => GLock 0) [tie_row]
+                          (fun p => if Nat.eqb p 1 then Some tie_row else None) (fun _ _ => 0)).
+  - intros p t o f k E. destruct (Hacc _ _ _ _ _ E) as [-> [-> [-> [-> ->]]]].
+    exists tie_row. cbn. auto.
+  - intros p t o f k r x m s E Hr Hin. destruct (Hacc _ _ _ _ _ E) as [-> [-> [-> [-> ->]]]].
+    cbn in Hr. inversion Hr; subst r. cbn in Hin. destruct Hin as [Hin | []]. inversion Hin; subst.
+    exists 0. repeat split; auto. intros q m' H1 H2. lia.
+  - intros p t o f k r E Hr _ Hm. destruct (Hacc _ _ _ _ _ E) as [-> [-> [-> [-> ->]]]].
+    cbn in Hr. inversion Hr; subst r. cbn in Hm. discriminate.
+  - intros p t o f k r E Hr. destruct (Hacc _ _ _ _ _ E) as [-> [-> [-> [-> ->]]]].
+    cbn in Hr. inversion Hr; subst r. cbn. reflexivity.
+  - intros p t o f k r E Hr Hex. destruct (Hacc _ _ _ _ _ E) as [-> [-> [-> [-> ->]]]].
+    cbn in Hr. inversion Hr; subst r. cbn in Hex. discriminate.
+  - intros p t o f k E _ q c Eq. exfalso. exact (Hnopub _ _ _ Eq).
+  - vm_compute. reflexivity.
+Qed.
